@@ -34,39 +34,49 @@ def arrHdr (b : Bytes) (body len : Nat) : Option Hdr :=
 def mapHdr (b : Bytes) (body len : Nat) : Option Hdr :=
   if len ≤ (b.size - body) / 2 then some (.map len body) else none
 
+/-- markers below 0xc0: positive fixint, fixmap, fixarray, fixstr -/
+def hdrFix (b : Bytes) (p m : Nat) : Option Hdr :=
+  if m < 0x80 then some (.scalar (.num (F64.ofNat m)) p)
+  else if m < 0x90 then mapHdr b p (m - 0x80)
+  else if m < 0xa0 then arrHdr b p (m - 0x90)
+  else strHdr b p (m - 0xa0)
+
+/-- markers 0xc0 … 0xdf (bin, ext and the reserved 0xc1 are unsupported) -/
+def hdrTagged (b : Bytes) (p m : Nat) : Option Hdr :=
+  match m with
+  | 0xc0 => some (.scalar .null p)
+  | 0xc2 => some (.scalar (.bool false) p)
+  | 0xc3 => some (.scalar (.bool true) p)
+  | 0xca => numHdr b p 4 F64.ofF32
+  | 0xcb => numHdr b p 8 id
+  | 0xcc => numHdr b p 1 F64.ofNat
+  | 0xcd => numHdr b p 2 F64.ofNat
+  | 0xce => numHdr b p 4 F64.ofNat
+  | 0xcf => numHdr b p 8 F64.ofNat
+  | 0xd0 => numHdr b p 1 (fun v => F64.ofInt (toSigned 8 v))
+  | 0xd1 => numHdr b p 2 (fun v => F64.ofInt (toSigned 16 v))
+  | 0xd2 => numHdr b p 4 (fun v => F64.ofInt (toSigned 32 v))
+  | 0xd3 => numHdr b p 8 (fun v => F64.ofInt (toSigned 64 v))
+  | 0xd9 => (match beRead b p 1 with | none => none | some l => strHdr b (p + 1) l)
+  | 0xda => (match beRead b p 2 with | none => none | some l => strHdr b (p + 2) l)
+  | 0xdb => (match beRead b p 4 with | none => none | some l => strHdr b (p + 4) l)
+  | 0xdc => (match beRead b p 2 with | none => none | some l => arrHdr b (p + 2) l)
+  | 0xdd => (match beRead b p 4 with | none => none | some l => arrHdr b (p + 4) l)
+  | 0xde => (match beRead b p 2 with | none => none | some l => mapHdr b (p + 2) l)
+  | 0xdf => (match beRead b p 4 with | none => none | some l => mapHdr b (p + 4) l)
+  | _ => none
+
+/-- the `match marker` of `LazyValueRef::new`: marker value `m`, cursor `p` just after it -/
+def hdrOfMarker (b : Bytes) (p m : Nat) : Option Hdr :=
+  if m < 0xc0 then hdrFix b p m
+  else if 0xe0 ≤ m then some (.scalar (.num (F64.ofInt (toSigned 8 m))) p)
+  else hdrTagged b p m
+
 /-- `LazyValueRef::new(bytes, pos)`; `none` is `ErrorCode::ReadError` -/
 def readHdr (b : Bytes) (pos : Nat) : Option Hdr :=
   match b[pos]? with
   | none => none
-  | some mk =>
-    let m := mk.toNat
-    let p := pos + 1
-    if m < 0x80 then some (.scalar (.num (F64.ofNat m)) p)
-    else if m < 0x90 then mapHdr b p (m - 0x80)
-    else if m < 0xa0 then arrHdr b p (m - 0x90)
-    else if m < 0xc0 then strHdr b p (m - 0xa0)
-    else if m = 0xc0 then some (.scalar .null p)
-    else if m = 0xc2 then some (.scalar (.bool false) p)
-    else if m = 0xc3 then some (.scalar (.bool true) p)
-    else if m = 0xca then numHdr b p 4 F64.ofF32
-    else if m = 0xcb then numHdr b p 8 id
-    else if m = 0xcc then numHdr b p 1 F64.ofNat
-    else if m = 0xcd then numHdr b p 2 F64.ofNat
-    else if m = 0xce then numHdr b p 4 F64.ofNat
-    else if m = 0xcf then numHdr b p 8 F64.ofNat
-    else if m = 0xd0 then numHdr b p 1 (fun v => F64.ofInt (toSigned 8 v))
-    else if m = 0xd1 then numHdr b p 2 (fun v => F64.ofInt (toSigned 16 v))
-    else if m = 0xd2 then numHdr b p 4 (fun v => F64.ofInt (toSigned 32 v))
-    else if m = 0xd3 then numHdr b p 8 (fun v => F64.ofInt (toSigned 64 v))
-    else if m = 0xd9 then (match beRead b p 1 with | none => none | some l => strHdr b (p + 1) l)
-    else if m = 0xda then (match beRead b p 2 with | none => none | some l => strHdr b (p + 2) l)
-    else if m = 0xdb then (match beRead b p 4 with | none => none | some l => strHdr b (p + 4) l)
-    else if m = 0xdc then (match beRead b p 2 with | none => none | some l => arrHdr b (p + 2) l)
-    else if m = 0xdd then (match beRead b p 4 with | none => none | some l => arrHdr b (p + 4) l)
-    else if m = 0xde then (match beRead b p 2 with | none => none | some l => mapHdr b (p + 2) l)
-    else if m = 0xdf then (match beRead b p 4 with | none => none | some l => mapHdr b (p + 4) l)
-    else if 0xe0 ≤ m then some (.scalar (.num (F64.ofInt (toSigned 8 m))) p)
-    else none
+  | some mk => hdrOfMarker b (pos + 1) mk.toNat
 
 /-! ### `rmp::encode` as used by the writer -/
 
